@@ -194,7 +194,7 @@ theorem seqLike_completeH {ext : Ext} {xs : SVals} {pe : Bool → B → List Int
   | dictionary p idx vals index =>
     have hsh := hg.shape
     simp only [Shape] at hsh
-    obtain ⟨⟨kdt, vdt, rfl⟩, _⟩ := hsh
+    obtain ⟨⟨kdt, vdt, rfl, hsv⟩, _⟩ := hsh
     simp [seqSpec, isUnknownVariant, fail] at hi
   | union p fs types offs cur =>
     have hsh := hg.shape
